@@ -31,19 +31,19 @@ def canon(steps):
     return json.dumps(steps, sort_keys=True)
 
 
-def run_family(ctx, name, behaviours, tags, server_flags=None):
+def run_family(ctx, name, behaviours, tags, server_flags=None, subcmd="run"):
     """Executes behaviours, validates the traces with TLC, returns the violations
     (restricted to `tags`) as replay records."""
     if not behaviours:
         return []
     byid = {b["id"]: b for b in behaviours}
-    traces = execute(ctx, behaviours, name, server_flags=server_flags)
+    traces = execute(ctx, behaviours, name, server_flags=server_flags, subcmd=subcmd)
     viols = validate(ctx, traces)
     ctx.count("traces_validated", count_traces(traces))
     trace_stats(ctx, traces)
     for b in behaviours[:2]:
         if len(ctx.samples) < 6:
-            ctx.samples.append({"family": name, "steps": b["steps"][:12], "nclients": b["nclients"]})
+            ctx.samples.append({"family": name, "steps": (b.get("steps") or b.get("schedule"))[:12], "nclients": b["nclients"]})
     out = []
     seen = set()
     for v in sorted(viols, key=lambda v: (v["tid"], v["line"])):
@@ -220,8 +220,11 @@ def check_C04(ctx):
     ok, out, rec = model_check(ctx, "YorkieGen", "mc_proto.cfg")
     if not ok:
         ctx.notes.append("design-level model mc_proto.cfg reports an invariant violation (candidate; see replay on code)")
+    # concurrent schedules: interleavings of the handler steps of overlapping requests (also of ONE client: a retry),
+    # enumerated by TLC from YorkieFG.tla and forced on the real server through the gate scheduler
+    viols += fg_part(ctx, 60 if quick else 1500, C04_TAGS | {"Converged", "RefEquiv", "SyncNeverFails"}, scens=("A", "B"))
     fresh, known = split_known(ctx, viols)
-    return "model_checking", fresh, known, mc_cov(ctx), ["memdb backend only", "sequential schedules here; concurrent schedules are in the gates/stress part"]
+    return "model_checking", fresh, known, mc_cov(ctx), ["memdb backend only (its write transactions are serialised)"]
 
 
 C06_TAGS = {"OwnEntry", "UniqueTicket", "AuthorMonotone", "Causal", "MinVVSound"}
@@ -443,7 +446,67 @@ def check_C14(ctx):
     return "model_checking", fresh, known, mc_cov(ctx), ["single editor, no concurrent remote operation (the property's own premise)"]
 
 
-CHECKS = {"C07": check_C07, "C09": check_C09, "C14": check_C14, "C18": check_C18, "C01": check_C01, "C02": check_C02, "C03": check_C03, "C04": check_C04, "C06": check_C06, "C08": check_C08,
+# ---- gate-forced schedules (mechanism S): behaviours of YorkieFG.tla ----------
+# scenario definitions mirror spec/YorkieFGScen.tla
+FG_SCEN = {
+    "A": {"reqs": {"r1": {"c": "c1", "kind": "sync"}, "r2": {"c": "c1", "kind": "sync"}, "r3": {"c": "c2", "kind": "sync"}}, "nlocal": {"c1": 1, "c2": 1}},
+    "B": {"reqs": {"r1": {"c": "c1", "kind": "sync"}, "r2": {"c": "c1", "kind": "sync"}, "r3": {"c": "c2", "kind": "sync"}, "r4": {"c": "c2", "kind": "sync"}},
+          "nlocal": {"c1": 1, "c2": 1}},
+    "C": {"reqs": {"r1": {"c": "c1", "kind": "sync"}, "r2": {"c": "c1", "kind": "cdetach"}, "r3": {"c": "-", "kind": "compact"}}, "nlocal": {"c1": 1, "c2": 1}},
+    "D": {"reqs": {"r1": {"c": "c1", "kind": "sync"}, "r2": {"c": "c2", "kind": "detach"}, "r3": {"c": "-", "kind": "compact"}}, "nlocal": {"c1": 1, "c2": 1}},
+}
+FG_CONTENT = [
+    # (kinds, init, op of c1, op of c2): what the unsent local changes are
+    (["n"], [], O("cnt.inc", v=1), O("cnt.inc", v=2)),
+    (["a"], TYPES["arr"]["init"], O("arr.ins", 0, 0, 2), O("arr.add", v=1)),
+    (["t"], TYPES["txt"]["init"], O("txt.edit", 1, 0, 2), O("txt.edit", 3, 1, 0)),
+    (["o"], TYPES["obj"]["init"], O("obj.set", 0, 0, 1), O("obj.set", 0, 0, 2)),
+]
+
+
+def fg_scenarios(ctx, scen, n, family):
+    scheds = generate(ctx, "fg_gen_%s.cfg" % scen, module="YorkieFGScen", simulate="num=%d" % n, workers=1, timeout=600)
+    out = []
+    for i, sch in enumerate(scheds):
+        kinds, init, op1, op2 = FG_CONTENT[i % len(FG_CONTENT)]
+        pre = []
+        nl = FG_SCEN[scen]["nlocal"]
+        for _ in range(nl.get("c1", 0)):
+            pre.append({"a": "edit", "c": "c1", "d": "d1", "op": op1})
+        for _ in range(nl.get("c2", 0)):
+            pre.append({"a": "edit", "c": "c2", "d": "d1", "op": op2})
+        b = wrap([], "%s-%s-%d" % (family, scen, i), nclients=2, kinds=kinds, init=init, family=family)
+        b.update({"pre": pre, "reqs": FG_SCEN[scen]["reqs"], "schedule": sch, "phaseops": {}})
+        out.append(b)
+    return out
+
+
+FG_TAGS = {"Completion", "LockOrder", "CreateUnderPushLock"}
+
+
+def fg_part(ctx, n, tags, scens=("A", "B", "C", "D")):
+    viols = []
+    for scen in scens:
+        ok, out, rec = model_check(ctx, "YorkieFGScen", "fg_%s.cfg" % scen)
+        if not ok:
+            ctx.notes.append("design-level model fg_%s.cfg violates an invariant (candidate only)" % scen)
+        behs = fg_scenarios(ctx, scen, n, "fg")
+        viols += run_family(ctx, "fg-" + scen, behs, tags, subcmd="gates")
+    return viols
+
+
+def check_C16(ctx):
+    build_harness(ctx)
+    quick = ctx.tier == "quick"
+    viols = fg_part(ctx, 60 if quick else 1500, FG_TAGS | C04_TAGS | {"Converged", "RefEquiv", "SyncNeverFails", "LogReplayable"})
+    fresh, known = split_known(ctx, viols)
+    return "model_checking", fresh, known, mc_cov(ctx), [
+        "deadlock freedom, lock order and push-lock discipline: exhaustive on YorkieFG.tla for the listed scenarios (3-4 concurrent requests), "
+        "TLC-generated schedules forced on the real server through the gate scheduler and validated; "
+        "data-race freedom is not decided by the specification (DESIGN.md section 8)"]
+
+
+CHECKS = {"C16": check_C16, "C07": check_C07, "C09": check_C09, "C14": check_C14, "C18": check_C18, "C01": check_C01, "C02": check_C02, "C03": check_C03, "C04": check_C04, "C06": check_C06, "C08": check_C08,
           "C10": check_C10, "C11": check_C11, "C12": check_C12, "C15": check_C15}
 
 
